@@ -77,6 +77,8 @@ func newWorld(p *Plan, want []string, logw io.Writer) *World {
 		w.want[x] = true
 	}
 	w.t0 = time.Now()
+	w.async = !p.SyncVerify
+	w.driverGID = goid()
 	w.ctx, w.cancel = context.WithCancel(context.Background())
 	w.net = &netState{linkDown: map[[2]int]time.Duration{}, sent: map[[2]int]uint64{}}
 	w.reg = newRegistry(w)
@@ -120,8 +122,23 @@ func (w *World) setup() error {
 
 func (w *World) finish() {
 	w.ended = true
-	// drain: every live honest replica handles what is already queued (nothing is sent any more)
-	if w.viol == nil {
+	// drain: background verifications finish, and every live honest replica handles what is already
+	// queued (nothing is sent any more); repeated because each can feed the other
+	for round := 0; round < 6 && w.viol == nil; round++ {
+		progress := false
+		if w.async {
+			synctest.Wait()
+			w.pmu.Lock()
+			w.parkedAll = append(w.parkedAll, w.parkedNew...)
+			w.parkedNew = nil
+			w.pmu.Unlock()
+			for i := 0; i < len(w.parkedAll); i++ {
+				if !w.parkedAll[i].released {
+					w.releaseParked(w.parkedAll[i])
+					progress = true
+				}
+			}
+		}
 		for _, nd := range w.nodes {
 			nd.drained = false
 			if nd.crashed || !nd.honest {
@@ -135,12 +152,16 @@ func (w *World) finish() {
 					nd.drained = !nd.crashed
 					break
 				}
+				progress = true
 				w.step++
 				w.afterStep(nd)
 				if w.viol != nil {
 					break
 				}
 			}
+		}
+		if !progress {
+			break
 		}
 	}
 	for _, f := range w.hooks.atEnd {
